@@ -23,8 +23,8 @@ import (
 	"sort"
 	"testing"
 
-	kit "github.com/keep-network/keep-core/internal/verifkit"
 	"github.com/keep-network/keep-core/internal/testutils"
+	kit "github.com/keep-network/keep-core/internal/verifkit"
 	"github.com/keep-network/keep-core/pkg/chain"
 	"github.com/keep-network/keep-core/pkg/internal/tecdsatest"
 	"github.com/keep-network/keep-core/pkg/protocol/group"
@@ -39,9 +39,12 @@ type c13Chain struct {
 	claims  []*InactivityClaim
 }
 
-func (c *c13Chain) GetDKGState() (DKGState, error)                     { return AwaitingResult, nil }
-func (c *c13Chain) IsDKGResultValid(r *DKGChainResult) (bool, error)   { return true, nil }
-func (c *c13Chain) SubmitDKGResult(r *DKGChainResult) error            { c.results = append(c.results, r); return nil }
+func (c *c13Chain) GetDKGState() (DKGState, error)                   { return AwaitingResult, nil }
+func (c *c13Chain) IsDKGResultValid(r *DKGChainResult) (bool, error) { return true, nil }
+func (c *c13Chain) SubmitDKGResult(r *DKGChainResult) error {
+	c.results = append(c.results, r)
+	return nil
+}
 func (c *c13Chain) GetWallet(pkh [20]byte) (*WalletChainData, error) {
 	return &WalletChainData{EcdsaWalletID: [32]byte{3}, State: StateLive}, nil
 }
